@@ -218,6 +218,21 @@ def rule_accessors(rep, pdb):
             zero = it is not None and it[0] == "call" and len(it) == 5 and it[4][0] == "call" and str(it[4][1]).endswith("Zero::zero")
             ok = ok and zero
             det += " base zero=%s" % zero
+        elif not effs:
+            # the diagonal set through the crate's own fill_diag (decided by accessor/fill_diag): `let mut id = Matrix::new(n, n, zero); id.fill_diag(one); id`
+            from .pdb import ancestors
+            fds = [n_ for n_ in walk(fn["body"]) if n_.get("k") == "MethodCall" and callee_path(n_) == "%s::fill_diag" % M]
+            tail = fn["body"].get("expr")
+            if len(fds) == 1 and tail is not None:
+                obj = ctx.term(fds[0]["recv"])
+                arg = ctx.term(call_args(fds[0])[1])
+                b = ctx.binds.get(obj[1]) if obj[0] == "var" else None
+                it = ctx.term(b.init) if b is not None and b.init is not None else None
+                fresh = it is not None and it[0] == "call" and str(it[1]).endswith("Matrix<T>::new") and len(it) == 5 and it[2] == P(0) and it[3] == P(0) and it[4][0] == "call" and str(it[4][1]).endswith("Zero::zero")
+                one = arg[0] == "call" and str(arg[1]).endswith("One::one")
+                others = [m_ for (kind_, m_) in ctx.mutations.get(obj, []) if not any(x is fds[0] for x in [m_] + list(ancestors(m_)))] if obj[0] == "var" else ["?"]
+                ok = fresh and one and ctx.term(tail) == obj and not others
+                det = "n x n zeros=%s fill_diag(one)=%s returned=%s nothing else written=%s" % (fresh, one, ctx.term(tail) == obj, not others)
         rep.add("shape/eye", "eye(n) is n x n zeros with one on (i,i) for i in 0..n", ok, fn["body"], det, where=loc(fn["body"]))
 
 
